@@ -1,8 +1,9 @@
+from checks.e3num import run_e3num
 from checks.generic import run_components
 
 ASSUME = ["A-INT: Python/numpy ints treated as mathematical integers", "A-FLOAT: floats treated as reals"]
 
 
 def run(tier, seed):
-    return run_components("C04", tier, seed, ['e1', 'e2', 'e3desc'], ASSUME,
+    return run_components("C04", tier, seed, ['e1', 'e2', 'e3desc', run_e3num], ASSUME,
                           ["kernelvc (E2 walker; scoping mirrors C/formatter.py)", "UFL form data as oracle for extents"])
